@@ -43,7 +43,7 @@ impl Prop for C17 {
     const BOTH_PROFILES: bool = true;
     fn count(tier: Tier) -> u64 {
         match tier {
-            Tier::Quick => 150_000,
+            Tier::Quick => 120_000,
             Tier::Thorough => 6_000_000,
         }
     }
@@ -54,6 +54,19 @@ impl Prop for C17 {
             o.long_ops = 600;
         }
         let mut sc = gen_mux(&mut r, &o);
+        // 64 KiB parameter sets under one-byte transfers cost 10^5 stream calls and add nothing
+        if sc.io.chunking != crate::simdisk::Chunking::Full {
+            for op in sc.ops.iter_mut() {
+                if let Op::AddTrack(t) = op {
+                    if t.sps.len() > 4096 {
+                        t.sps.truncate(300);
+                    }
+                    if t.pps.len() > 4096 {
+                        t.pps.truncate(300);
+                    }
+                }
+            }
+        }
         // extreme sample fields sprinkled over the history
         let n = sc.ops.len();
         for op in sc.ops.iter_mut() {
